@@ -63,6 +63,13 @@ def observe_dump(T, t, v):
     except Exception as e:  # noqa: BLE001
         return {"status": "error", "b": [], "exc": f"{type(e).__name__}: {e}"[:200]}, NO_RE
     dump = {"status": "ok", "b": list(b), "exc": ""}
+    try:
+        # the count write() reports, next to what it actually put on the stream
+        w = io.BytesIO()
+        n = v.write(w) if hasattr(v, "write") else T.write(w, v)
+        dump["wcount"] = n if isinstance(n, int) and not isinstance(n, bool) and w.getvalue() == b else -1
+    except Exception:  # noqa: BLE001
+        dump["wcount"] = -1
     st = io.BytesIO(b)
     try:
         v2 = T.read(st)
